@@ -77,7 +77,7 @@ def run(ctx: core.Ctx):
     jobs, desc = e2e.build_jobs(ctx, parts=("readout",))
     t = time.time()
     results = core.pmap(e2e.eval_state, jobs)
-    e2e.book(ctx, results, ("C03.",), lambda fam, n: GROUND if n <= 4 else BOUNDED)
+    e2e.book(ctx, results, ("C03.", "Q4."), lambda fam, n: GROUND if n <= 4 else BOUNDED)
     fam = ctx.family("C03.frame.signs_never_read", GROUND, "native", "get_readout_circuit completes on a Stabilizer whose .phases raises, with the same gate list")
     fam.exhaustive = True
     fam.domain = "one member of every class of every advertised configuration"
